@@ -246,7 +246,62 @@ func c12Stream(r *rt.Run) {
 	}
 	var out []byte
 	var rerr error
+	// how the consumer takes the bytes: Read calls (default), byte by byte through
+	// ReadByte when the hashing reader offers it, or io.Copy into a destination
+	// that accepts part of one block, fails once, and is then written to again
+	consume := 0
+	if !faulty {
+		consume = t.Weighted([]int{4, 1, 1}, "c12.consume")
+	}
+	if consume == 1 {
+		if _, ok := rd.(io.ByteReader); !ok {
+			consume = 0
+		}
+	}
+	if consume == 2 && len(data) > 1 {
+		dst := simio.NewWriter(r, "destination")
+		dst.PartialOnceAt(1+t.Draw(len(data)-1, "c12.dstfail"), simio.ErrNoSpace)
+		var copied int64
+		var cerr error
+		task := r.Solo("consumer", func() {
+			for attempt := 0; attempt < 4; attempt++ {
+				n, e := io.Copy(dst, rd)
+				copied += n
+				cerr = e
+				if e == nil {
+					return
+				}
+			}
+		})
+		if taskTrouble(r, "C12", where, task) {
+			return
+		}
+		r.Probe("copied-into-a-destination-that-failed-once")
+		if cerr != nil {
+			r.Violate("C12/read-error", where+"/copy", "copying on after the destination's one failure did not finish: %v", cerr)
+			return
+		}
+		// every source byte went through the hashing reader exactly once (what the
+		// destination dropped in its failed call is the consumer's loss, not the hashers')
+		checkHashers(r, where+"/copy-resumed", algs, hs, data)
+		return
+	}
 	task := r.Solo("consumer", func() {
+		if consume == 1 {
+			br := rd.(io.ByteReader)
+			r.Probe("consumed-through-ReadByte")
+			for i := 0; i < 10_000_000; i++ {
+				b, e := br.ReadByte()
+				if e == io.EOF {
+					return
+				}
+				if e != nil {
+					rerr = e
+					return
+				}
+				out = append(out, b)
+			}
+		}
 		for i := 0; i < 10_000_000; i++ {
 			n := chunkSizes[1+t.Draw(len(chunkSizes)-1, "c12.buf")]
 			buf := make([]byte, n)
@@ -598,5 +653,5 @@ func init() {
 		},
 		Assumptions: []string{"crypto/md5, sha1, sha256, sha512 of the Go standard library are the reference digests", "Verifier() on md5/sha1 entries calls log.Fatalf by design and is not exercised (the statement restricts itself to Sha256/Sha512 fields)"},
 	})
-	propProbes["C12"] = []string{"copy-into-hasher-interrupted-and-resumed", "zero-length-write", "data-and-eof-in-one-read", "best-selected-sha512"}
+	propProbes["C12"] = []string{"copied-into-a-destination-that-failed-once", "copy-into-hasher-interrupted-and-resumed", "zero-length-write", "data-and-eof-in-one-read", "best-selected-sha512"}
 }
